@@ -64,7 +64,7 @@ static void t_mbstowcs(const char *src, size_t dmax, size_t len, int dnull, int 
         rc = restart ? f_mbsrtowcs(&ret, dest, dnull ? (dmax ? 64 : 0) : dmax, &srcp, len, &ps, BOSU) : f_mbstowcs(&ret, dest, dnull ? (dmax ? 64 : 0) : dmax, src, len, BOSU);   /* query form: dest NULL, dmax is 0 or only a limit */
         armed = 0; } else faulted = 1;
     if (verbose) { printf("%s: rc=%d *retvalp=%zu handler=%d fault=%d  libc: full=%zd valid=%d need=%zu\n", fn, rc, ret, h_n, faulted, (ssize_t)full, valid, need); if (dest && !faulted) { printf("  dest:"); for (size_t i = 0; i < dmax; i++) printf(" %x", (unsigned)dest[i]); printf("\n"); } }
-    if (faulted) { n_fault++; return; }          /* an out-of-bounds access is C01/C02's finding */
+    if (faulted) { n_fault++; report(fn, "access-outside-the-space-available", "fault", cs); return; }   /* 'limited to the space available' is part of this property too */
     cls(need, dmax, len, dnull, valid_prefix, cb);
     if (dnull) {
         if (valid && len >= full) { if (rc != 0 || ret != full) report(fn, "query-wrong-length", cb, cs); }
@@ -109,7 +109,7 @@ static void t_wcstombs(const wchar_t *src, size_t dmax, size_t len, int dnull, i
         rc = restart ? f_wcsrtombs(&ret, dest, dnull ? 64 : dmax, &srcp, len, &ps, BOSU) : f_wcstombs(&ret, dest, dnull ? 64 : dmax, src, len, BOSU);
         armed = 0; } else faulted = 1;
     if (verbose) { printf("%s: rc=%d *retvalp=%zu handler=%d fault=%d  libc: full=%zd need(len-limited)=%zu\n", fn, rc, ret, h_n, faulted, (ssize_t)full, need); if (dest && !faulted) { printf("  dest:"); for (size_t i = 0; i < dmax; i++) printf(" %02x", (unsigned char)dest[i]); printf("\n"); } }
-    if (faulted) { n_fault++; return; }
+    if (faulted) { n_fault++; report(fn, "access-outside-the-space-available", "fault", cs); return; }
     cls(need, dmax, len, dnull, valid_prefix, cb);
     if (dnull) {
         if (valid && len >= full) { if (rc != 0 || ret != full) report(fn, "query-wrong-length", cb, cs); }
@@ -145,7 +145,7 @@ static void t_wc1(wchar_t wc, size_t dmax, int dnull, int which) {
     if (sigsetjmp(jb, 1) == 0) { armed = 1; rc = which ? f_wctomb(&reti, dest, dnull ? 0 : dmax, wc, BOSU) : f_wcrtomb(&ret, dest, dnull ? 0 : dmax, wc, &ps, BOSU); armed = 0; } else faulted = 1;
     if (which) ret = (size_t)reti;
     if (verbose) printf("%s: rc=%d *retvalp=%zd fault=%d libc need=%zd\n", fn, rc, (ssize_t)ret, faulted, (ssize_t)need);
-    if (faulted) { n_fault++; return; }
+    if (faulted) { n_fault++; report(fn, "access-outside-the-space-available", "fault", cs); return; }
     sprintf(cb, "%s,%s", valid ? "valid" : "invalid-char", dnull ? "query" : !valid ? "-" : need + 1 <= dmax ? "fits" : "need>=dmax");
     if (dnull) return;
     if (!valid) { if (rc == 0) report(fn, "invalid-character-accepted", cb, cs); else if (dest[0] != 0) report(fn, "dest-not-cleared-on-invalid-character", cb, cs); return; }
